@@ -735,7 +735,15 @@ def r07_mode_table(ctx, props=("C15",)):
     f = ctx.func("data.get_is_leap_year")
     rep.anchor(rule2, "get_is_leap_year")
     ok, why = _leap_fold_shape(f)
-    rep.check(ok, rule2, ctx.fkey(f, None, "fold-shape"), f.loc(),
+    if not ok and "not recognised" in why:
+        rep.undecided(rule2, ctx.fkey(f, None, "fold-shape"), f.loc(),
+                      "get_is_leap_year is not written as the loop over the "
+                      "leap table this rule reads (%s): the order in which "
+                      "table entries override each other is not decided "
+                      "here" % why, props)
+        ok = None
+    if ok is not None:
+      rep.check(ok, rule2, ctx.fkey(f, None, "fold-shape"), f.loc(),
               "get_is_leap_year folds the table with later entries "
               "overriding earlier ones (result starts False, `year % factor "
               "== 0` selects, no early exit)", why, props)
